@@ -319,10 +319,18 @@ fn exec_steady(sc: &Scenario) -> Report {
             // the bar is created at that position (resuming a download, say): not progress
             base_pos = sc.c("base_pos");
             pb.with_position(base_pos)
+        } else if sc.c("base_pos") > 0 && sc.c("base_builder") == 2 {
+            // ... or positioned through the builder of an adaptor wrapped around it
+            use indicatif::ProgressIterator;
+            base_pos = sc.c("base_pos");
+            let it = (0..0u8).progress_with(pb.clone()).with_position(base_pos);
+            drop(it);
+            pb
         } else {
             pb
         };
-        if sc.c("base_pos") > 0 && sc.c("base_builder") != 1 {
+        let via_update = sc.c("via_update") == 1;
+        if sc.c("base_pos") > 0 && sc.c("base_builder") == 0 {
             sched::advance_quiet(1_000_000);
             let bp = sc.c("base_pos");
             let _ = call(|| {
@@ -353,8 +361,13 @@ fn exec_steady(sc: &Scenario) -> Report {
                     let el_ms = (sched::clock_ns() - base_ns) / unit;
                     let p = base_pos + if k > 0 { el_ms * k } else { el_ms / m };
                     if let Err(e) = call(|| {
-                        pb.set_position(p);
-                        pb.tick();
+                        if via_update {
+                            // the closure API stores the position; update() ticks
+                            pb.update(|s| s.set_pos(p));
+                        } else {
+                            pb.set_position(p);
+                            pb.tick();
+                        }
                     }) {
                         r.violate("C09.no_panic", format!("{at} panicked: {e}"));
                         break;
@@ -716,7 +729,8 @@ impl Check for C09 {
                 if rng.chance(1, 4) {
                     sc.set("unit_ns", 1_000);
                 }
-                sc.set("base_builder", rng.chance(1, 3) as u64);
+                sc.set("base_builder", *rng.pick(&[0, 0, 0, 1, 1, 2]));
+                sc.set("via_update", rng.chance(1, 4) as u64);
                 if rng.chance(1, 2) {
                     sc.set("steps_per_ms", *rng.pick(&[1, 2, 7, 1000, 1_000_000]));
                 } else {
